@@ -55,6 +55,7 @@ def run(ctx):
     res.rule = (f"ALL binary tree shapes with <= {nmax} nodes x every node (root included), plus random shapes up to 60 nodes x 6 random nodes; "
                 "distinct non-trivial = distinct (shape, node) with the node not the root")
     res.suites = ["rotate (shape read back from the real nodes after node.rotate() vs extracted Bt.rotate_tree)",
+                  "heap.rotate (left/right/parent pointer of EVERY node object after node.rotate() vs extracted Heap.hrotate run on the object graph before)",
                   "oracle: in-order id sequence unchanged; full link audit (every child's parent is its parent, no node twice, root without parent); "
                   "node.parent = old grandparent; grandparent's child on the parent's old side = node; rotating the root changes nothing"]
     shapes = [SH.label(s)[0] for s in SH.shapes_upto(nmax)]
@@ -89,6 +90,31 @@ def run(ctx):
             res.failures.append(dict(**{"class": "root-rotation"}, input=inp, detail="rotating the root changed the tree", after=SH.text(after)))
         if SH.size(t) == 6 and len(p) == 2:
             res.sample(dict(inp, after=SH.text(after)))
+    # ---- heap level: every object's three pointers after node.rotate() vs the extracted Heap.hrotate on the object graph before
+    from suites.c13 import heap_records, preorder, blank_scratch
+    hl, hm = [], []
+    for t, p, collide in cases[:: (3 if ctx.tier == "quick" else 2)]:
+        root, table = SH.build_nodes(t, make_node(collide))
+        objs = preorder(root)
+        node = table[SH.sub(t, p)[1]]
+        recs = heap_records(objs, True)
+        try:
+            node.rotate()
+        except Exception as e:
+            continue
+        after_recs = heap_records(objs, True)
+        if any(" X" in r for r in recs + after_recs):
+            res.failures.append(dict(**{"class": "links"}, input=dict(shape=SH.text(t), node=p), detail="a pointer leads outside the tree's own nodes after rotate()"))
+            continue
+        hl.append(f"HEAP rotate {objs.index(node)} " + " | ".join(recs))
+        hm.append((f"OK {objs.index(node)} | " + " | ".join(after_recs), dict(shape=SH.text(t), node=p, ids=["distinct", "all equal", "two alternating"][collide])))
+    hmodel = common.drive(hl) if ctx.driver_ok else [None] * len(hl)
+    for (ans, inp), m in zip(hm, hmodel):
+        res.evaluations += 1
+        if m is not None and m.startswith("OK") and blank_scratch(m).strip() != blank_scratch(ans).strip():
+            res.disagreements.append(dict(suite="heap.rotate", input=inp, impl=blank_scratch(ans)[:400], model=blank_scratch(m)[:400]))
+        elif m is not None and not m.startswith("OK"):
+            res.disagreements.append(dict(suite="heap.rotate", input=inp, impl=ans[:200], model=m[:200]))
 
 
 def replay(payload):
